@@ -3,6 +3,7 @@ From Coq Require Import List ZArith NArith.
 From GV Require Import Front.Infix Front.InfixProofs Front.OpLookup Front.OpLookupProofs.
 From GV Require Import Front.InfixComplete.
 From GV Require Import Front.SpanCheck Front.SpanCheckProofs Front.LayoutCheck Front.LayoutCheckProofs.
+From GV Require Front.Layout Front.LayoutProofs.
 Import ListNotations.
 
 (* The in-order traversal of the re-associated tree is the input chain. *)
@@ -104,3 +105,19 @@ Theorem C08_layout_positions : forall (a b pre : list tok) (t : tok) (post : lis
   neighbour (eof_of a) (last_real None pre) t post.
 Proof. exact layout_positions. Qed.
 Print Assumptions C08_layout_positions.
+
+(* ---- the layout model (port of parser/src/layout.rs, tables regenerated from the source) ---- *)
+
+(* One call of layout_next_token needs at most 2·|contexts| + 3 iterations of its loop. *)
+Theorem C08_layout_step_terminates : forall (fuel : nat) (st : Layout.state),
+  Layout.layout_next_token fuel st <> Layout.LFuel.
+Proof. exact LayoutProofs.layout_step_terminates. Qed.
+Print Assumptions C08_layout_step_terminates.
+
+(* The statement after an `if .. else ..` is separated by a virtual `;` exactly when the CloseBlock
+   arm of layout_next_token does not clear `emit_semi` of the enclosing block. *)
+Theorem C08_if_else_statement_separator :
+  exists out, Layout.layout LayoutProofs.if_else_then_statement = Layout.ROk out /\
+              LayoutProofs.has_semi out = negb LayoutTablesGen.close_block_resets_semi.
+Proof. exact LayoutProofs.if_else_statement_separator. Qed.
+Print Assumptions C08_if_else_statement_separator.
